@@ -14,7 +14,7 @@ use refchess::{Color, Kind, Mv, Pos};
 use serde_json::{json, Value};
 use std::cell::RefCell;
 
-pub const RULE: &str = "(i) same position by different routes: two interleavings of commuting legal moves (a·b·c·d vs c·b·a·d / c·d·a·b / a·d·c·b), used only when the reference says the end positions are equal; the same position by FEN and by play; same four fields with different counters -> hashes must be EQUAL. (ii) single-component flips — and in a third of the cases accumulated flips of two or more components (e.g. one castling right exchanged for another) — through the public Board API (add/remove/recolour/retype one man, side to move, each castling right, ep None<->Some(s), Some(s)<->Some(t)) -> hashes must DIFFER. (iii) population: >=10^4 distinct positions per pool; within a key draw two positions share a hash iff they are the same position. All under K independent ZobristTable::new() draws per worker thread (8 quick / 64 thorough). Non-trivial: (i) routes differ in >=2 visited positions, (ii) any flip, (iii) pool >= 10^4; distinct by FEN pair / (FEN, component).";
+pub const RULE: &str = "(i) same position by different routes: two interleavings of commuting legal moves (a·b·c·d vs c·b·a·d / c·d·a·b / a·d·c·b), used only when the reference says the end positions are equal; the same position by FEN and by play; same four fields with different counters -> hashes must be EQUAL. (ii) single-component flips — and in a third of the cases accumulated flips of two or more components (e.g. one castling right exchanged for another) — through the public Board API (add/remove/recolour/retype one man, side to move, each castling right, ep None<->Some(s), Some(s)<->Some(t)) -> hashes must DIFFER. (iii) population: >=10^4 distinct positions per pool; within a key draw two positions share a hash iff they are the same position. (iv) ENUMERATED part 'component-pairs': for every pair of components (a man of a kind and colour on a square, one castling right, one en-passant square, the side to move; 789 components, ~300 000 pairs) two valid positions that differ in exactly those two components -> hashes must DIFFER (two components sharing a key are invisible to single flips). All under K independent ZobristTable::new() draws per worker thread (8 quick / 64 thorough). Non-trivial: (i) routes differ in >=2 visited positions, (ii) any flip, (iii) pool >= 10^4; distinct by FEN pair / (FEN, component).";
 
 thread_local! {
     static TABLES: RefCell<Vec<ZobristTable>> = RefCell::new(Vec::new());
@@ -360,6 +360,213 @@ fn part_pool(bytes: &[u8], stats: &mut Stats) -> Verdict {
     Ok(())
 }
 
+/// One component of a position, as the statement lists them.
+#[derive(Clone, Copy, Debug, PartialEq, Eq)]
+enum Comp {
+    Man(Color, Kind, u8),
+    Right(usize),
+    Ep(u8),
+    Side,
+}
+
+fn all_components() -> Vec<Comp> {
+    let mut v = Vec::new();
+    for c in [Color::W, Color::B] {
+        for k in [Kind::P, Kind::N, Kind::B, Kind::R, Kind::Q, Kind::K] {
+            for s in 0..64u8 {
+                if k == Kind::P && (s < 8 || s >= 56) {
+                    continue;
+                }
+                v.push(Comp::Man(c, k, s));
+            }
+        }
+    }
+    for i in 0..4 {
+        v.push(Comp::Right(i));
+    }
+    for f in 0..8u8 {
+        v.push(Comp::Ep(16 + f)); // rank 3: white has just pushed, black to move
+        v.push(Comp::Ep(40 + f)); // rank 6
+    }
+    v.push(Comp::Side);
+    v
+}
+
+/// Two valid positions that differ in exactly the two components `x` and `y` (each position has
+/// one of them, everything else is common), or None when no such pair of valid positions is found
+/// among the tried frames (kings on candidate squares, the men a right or an ep square needs).
+fn pair_for(x: Comp, y: Comp) -> Option<(Pos, Pos)> {
+    let is_king = |c: &Comp| matches!(c, Comp::Man(_, Kind::K, _));
+    // kings pair only with a king of the same colour on another square
+    if is_king(&x) || is_king(&y) {
+        let (Comp::Man(cx, Kind::K, sx), Comp::Man(cy, Kind::K, sy)) = (x, y) else { return None };
+        if cx != cy || sx == sy {
+            return None;
+        }
+        for other in [0u8, 7, 56, 63, 27, 36] {
+            if other == sx || other == sy {
+                continue;
+            }
+            let mk = |s: u8| {
+                let mut p = Pos::empty();
+                p.sq[s as usize] = Some((cx, Kind::K));
+                p.sq[other as usize] = Some((cx.other(), Kind::K));
+                p
+            };
+            let (a, b) = (mk(sx), mk(sy));
+            if a.is_valid() && b.is_valid() {
+                return Some((a, b));
+            }
+        }
+        return None;
+    }
+    // common frame: what the components need to be meaningful
+    let needs = |c: &Comp, p: &mut Pos| -> bool {
+        match c {
+            Comp::Right(i) => {
+                let (ks, rs, col) = [(4u8, 7u8, Color::W), (4, 0, Color::W), (60, 63, Color::B), (60, 56, Color::B)][*i];
+                for (s, m) in [(ks, (col, Kind::K)), (rs, (col, Kind::R))] {
+                    match p.sq[s as usize] {
+                        None => p.sq[s as usize] = Some(m),
+                        Some(q) if q == m => {}
+                        _ => return false,
+                    }
+                }
+                true
+            }
+            Comp::Ep(e) => {
+                // the pushed pawn in front of the ep square, the squares behind it empty
+                let white_pushed = *e < 32;
+                let pawn = if white_pushed { e + 8 } else { e - 8 };
+                let col = if white_pushed { Color::W } else { Color::B };
+                match p.sq[pawn as usize] {
+                    None => p.sq[pawn as usize] = Some((col, Kind::P)),
+                    Some(q) if q == (col, Kind::P) => {}
+                    _ => return false,
+                }
+                let origin = if white_pushed { e - 8 } else { e + 8 };
+                p.sq[*e as usize].is_none() && p.sq[origin as usize].is_none()
+            }
+            _ => true,
+        }
+    };
+    let apply = |c: &Comp, p: &mut Pos| -> bool {
+        match c {
+            Comp::Man(col, k, s) => {
+                if p.sq[*s as usize].is_some() {
+                    return false;
+                }
+                p.sq[*s as usize] = Some((*col, *k));
+                true
+            }
+            Comp::Right(i) => {
+                p.castle[*i] = true;
+                true
+            }
+            Comp::Ep(e) => {
+                p.ep = Some(*e);
+                true
+            }
+            Comp::Side => {
+                p.stm = p.stm.other();
+                true
+            }
+        }
+    };
+    // side to move of the frame: an ep square fixes it
+    let stm_for = |c: &Comp| match c {
+        Comp::Ep(e) => Some(if *e < 32 { Color::B } else { Color::W }),
+        _ => None,
+    };
+    let king_frames: [(u8, u8); 8] = [(0, 63), (7, 56), (63, 0), (56, 7), (4, 60), (24, 39), (2, 61), (31, 32)];
+    for (wk, bk) in king_frames {
+        for frame_stm in [Color::W, Color::B] {
+            let mut f = Pos::empty();
+            f.stm = frame_stm;
+            let mut ok = needs(&x, &mut f) && needs(&y, &mut f);
+            // kings: the ones a right has put on the board, else the frame's
+            if ok {
+                if f.king_sq(Color::W).is_none() {
+                    if f.sq[wk as usize].is_some() {
+                        ok = false;
+                    } else {
+                        f.sq[wk as usize] = Some((Color::W, Kind::K));
+                    }
+                }
+                if ok && f.king_sq(Color::B).is_none() {
+                    if f.sq[bk as usize].is_some() {
+                        ok = false;
+                    } else {
+                        f.sq[bk as usize] = Some((Color::B, Kind::K));
+                    }
+                }
+            }
+            if !ok {
+                continue;
+            }
+            // an ep component puts its side to move on ITS position only when the other component
+            // is the side itself; otherwise both positions have the side the ep square demands
+            let (mut a, mut b) = (f.clone(), f.clone());
+            match (stm_for(&x), stm_for(&y), x == Comp::Side || y == Comp::Side) {
+                (Some(s1), Some(s2), _) if s1 != s2 => continue,
+                (Some(s1), _, false) | (_, Some(s1), false) => {
+                    a.stm = s1;
+                    b.stm = s1;
+                }
+                (Some(s1), _, true) => {
+                    // x = ep (side s1), y = side: a has the ep square, b is the frame with the other side
+                    a.stm = s1;
+                    b.stm = s1; // Side flips b below
+                }
+                (_, Some(s2), true) => {
+                    a.stm = s2;
+                    b.stm = s2;
+                }
+                _ => {}
+            }
+            if !apply(&x, &mut a) || !apply(&y, &mut b) {
+                continue;
+            }
+            if a != b && a.is_valid() && b.is_valid() {
+                return Some((a, b));
+            }
+        }
+    }
+    None
+}
+
+/// Enumerated part 'component-pairs': for EVERY pair of components (a man of a kind and colour on a
+/// square, one castling right, one en-passant square, the side to move) two valid positions that
+/// differ in exactly those two; their hashes must differ under every key draw.  Two components that
+/// share a key are invisible to single-component flips; this is the direct test of it.
+fn judge_component_row(i: usize, comps: &[Comp], stats: &mut Stats) -> Verdict {
+    let x = comps[i];
+    for y in comps.iter().skip(i + 1) {
+        let Some((a, b)) = pair_for(x, *y) else {
+            stats.exclude("component pair without a pair of valid positions in the tried frames");
+            continue;
+        };
+        eng::set_counter_wish(0, 1);
+        let (ba, bb) = (guarded("Board::new", || eng::to_board(&a))?, guarded("Board::new", || eng::to_board(&b))?);
+        stats.eval();
+        let (ha, hb) = (hashes(&ba), hashes(&bb));
+        if ha.iter().zip(hb.iter()).any(|(p, q)| p == q) {
+            let n = fresh_draw_recheck(false, &ba, &bb);
+            return Err(Failure::new(
+                "different-position-same-hash",
+                json!({"components": [format!("{:?}", x), format!("{:?}", y)], "position_a": a.fen4(), "position_b": b.fen4(), "fresh_draws_failed_of_8": n, "replay": {"pair": [a.fen(0, 1), b.fen(0, 1)]}}),
+            ));
+        }
+        stats.class(match (x, y) {
+            (Comp::Man(..), Comp::Man(..)) => "component_pairs_man_x_man",
+            (Comp::Man(..), _) | (_, Comp::Man(..)) => "component_pairs_man_x_right_ep_or_side",
+            _ => "component_pairs_among_rights_ep_side",
+        });
+        stats.nontrivial(&(a.fen4(), b.fen4()));
+    }
+    Ok(())
+}
+
 pub fn run(tier: Tier, seed: u64, known: &Known) -> PropRun {
     let mut run = PropRun::new("exploration", RULE);
     run.assumptions = vec![
@@ -374,6 +581,21 @@ pub fn run(tier: Tier, seed: u64, known: &Known) -> PropRun {
         ("flips", tier.pick(80_000, 500_000), 260, part_flips),
         ("pool", tier.pick(16, 160), 60_000, part_pool),
     ];
+    // enumerated part first: every pair of components
+    {
+        let comps = all_components();
+        let rows: Vec<usize> = (0..comps.len()).collect();
+        run.stats.class_n("components_enumerated", comps.len() as u64);
+        let (st, fail) = crate::runner::run_enumerated("component-pairs", &rows, threads(), seed, known, |i, st| {
+            set_k();
+            judge_component_row(*i, &comps, st)
+        });
+        run.stats.merge(st);
+        if fail.is_some() {
+            run.failure = fail;
+            return run;
+        }
+    }
     for (name, cases, max_len, f) in parts {
         let part = Part { name, cases, min_len: if name == "pool" { 20_000 } else { 8 }, max_len, max_shrink: if name == "pool" { 64 } else { 3000 }, threads: threads() };
         let (st, fail) = run_part(&part, seed, known, |b, st| {
@@ -436,6 +658,16 @@ fn replay_routes(case: &Value) -> Option<Verdict> {
 
 pub fn replay(part: &str, bytes: &[u8], case: &Value, stats: &mut Stats) -> Verdict {
     KDRAWS.with(|k| *k.borrow_mut() = 8);
+    if let Some(pair) = case.get("replay").and_then(|r| r.get("pair")).and_then(|x| x.as_array()) {
+        if let (Some(fa), Some(fb)) = (pair.get(0).and_then(|x| x.as_str()), pair.get(1).and_then(|x| x.as_str())) {
+            let (ba, bb) = (Board::new(fa), Board::new(fb));
+            stats.eval();
+            if hashes(&ba).iter().zip(hashes(&bb).iter()).any(|(p, q)| p == q) {
+                return Err(Failure::new("different-position-same-hash", json!({"position_a": fa, "position_b": fb, "fresh_draws_failed_of_8": fresh_draw_recheck(false, &ba, &bb)})));
+            }
+            return Ok(());
+        }
+    }
     if part == "routes" {
         if let Some(v) = replay_routes(case) {
             return v;
